@@ -1463,6 +1463,20 @@ class Circuit(Unitary, StateVectorMap, Collection[Operation]):
             self.insert(cycle_index, op)
             return
 
+        # The operations are inserted in reverse at one cycle; resolve the
+        # index once so that it names the same cycle for every operation.
+        if cycle_index >= self.num_cycles:
+            for op in circuit:
+                mapped_location = [location[q] for q in op.location]
+                self.append(Operation(op.gate, mapped_location, op.params))
+            return
+
+        if cycle_index < -self.num_cycles:
+            cycle_index = 0
+
+        elif cycle_index < 0:
+            cycle_index = self.num_cycles + cycle_index
+
         for op in reversed(circuit):
             mapped_location = [location[q] for q in op.location]
             self.insert(
